@@ -214,7 +214,7 @@ def part_corpus():
 BIG = [0, 1, -1, 2, 7, 8, 63, 64, 127, 128, 255, 256, 1023, 1024, 1025, 8191, 8192, 65535, 65536, 2**18 - 1, 2**18, 2**18 + 1,
        2**30, 2**31 - 1, 2**31, 2**31 + 1, 2**32 - 1, 2**32, 2**62, 2**63 - 1, 2**63, 2**64 - 1, 2**64, 2**64 + 1, 2**100, 10**40,
        -2, -7, -64, -1024, -2**31, -2**31 - 1, -2**63, -2**63 - 1, -2**64, -10**40]
-SAFE_PID_INTS = [-1, -2, -5, -2**31, -2**31 - 1, 4194304 + 77, 2**31 - 1, 2**31, 2**32 + 1, 2**63, 2**64, 10**30, -10**30]
+SAFE_PID_INTS = [-1, -2, -5, -2**31, -2**31 - 1, 4194304 + 77, 2**31 - 1, 2**31, 2**32 + 4194304 + 77, 2**63, 2**64, 10**30, -10**30]
 STRS = ["", "lo", "eth0", "nonexistent0", "a" * 15, "a" * 16, "a" * 17, "lo" + "x" * 300, "z" * 5000, "z" * 70000, "lo\0", "\0", "a\0b",
         "\udcff", "lo\udc80", "éth0", "/proc/self/mounts", "/nonexistent/file", "/", "/etc/hostname", "%s%s%s%n", "eth0:1"]
 
@@ -333,3 +333,64 @@ def _safe_first(a):
         v = int(a["v"])
         return v < 0 or v > 4194304
     return a["t"] not in ("bool",)
+
+
+# ------------------------------------------------------------------------------- wrap-around family
+
+WRAP_BASE = [0, 1, 2, 3, 4, 7, 8, 19, 20, 8191, 8192, -1, -20, -21]            # valid and boundary values of class / data / nice
+WRAP_POW = [2**31 - 1, 2**31, 2**31 + 1, 2**32 - 1, 2**32, 2**32 + 1, 2**63 - 1, 2**63, 2**63 + 1, 2**64 - 1, 2**64, 2**64 + 1]
+INT_UNIT_CHARS = "ilLnhbIkKHB"
+
+
+def wrap_values():
+    vals = []
+    for v in WRAP_BASE:
+        for k in (1, -1, 2, -2):
+            vals.append(v + k * 2**32)
+            vals.append(v + k * 2**64)
+    return vals + WRAP_POW + [-x for x in WRAP_POW]
+
+
+def wrap_calls(names, fmts):
+    """Deterministic list of calls: one integer parameter at a time takes a wrap-around value, the others valid defaults.
+    A pid parameter (first 'i' of every entry point but check_pid_range) only ever takes values congruent to the
+    sacrificial child or to a PID above pid_max — never to another live process, whatever the converter does."""
+    out = []
+    for (m, f) in names:
+        fmt = fmts.get((m, f))
+        if fmt in (None, "*"):
+            continue
+        units = list(fmt)
+        for j, u in enumerate(units):
+            if u not in INT_UNIT_CHARS:
+                continue
+            is_pid = (j == 0 and f != "check_pid_range")
+            if is_pid:
+                cands = [{"t": "pidplus", "v": "child", "k": str(k * 2**e)} for e in (32, 64) for k in (1, -1, 2, -2)] + \
+                        [{"t": "pidplus", "v": "nopid", "k": str(k * 2**e)} for e in (32, 64) for k in (1, -1)]
+            else:
+                cands = [a_int(v) for v in wrap_values()]
+            for c in cands:
+                args = []
+                for i, ui in enumerate(units):
+                    if i == j:
+                        args.append(c)
+                    elif i == 0 and ui in INT_UNIT_CHARS and f != "check_pid_range":
+                        args.append({"t": "pid", "v": "child"})
+                    elif ui in INT_UNIT_CHARS:
+                        args.append(a_int({"proc_ioprio_set": [0, 2, 4], "setpriority": [0, 5]}.get(f, [0, 0, 0])[min(i, 2)]))
+                    elif ui == "s":
+                        args.append({"t": "str", "v": "lo"})
+                    elif f == "proc_cpu_affinity_set":
+                        args.append({"t": "list", "v": [a_int(0)]})
+                    else:
+                        args.append({"t": "none"})
+                call = {"mod": m, "fn": f, "args": args, "units": fmt, "wrap": j, "errno": 0}
+                if f == "proc_cpu_affinity_set":
+                    call["post"] = "affinity"
+                if f == "proc_ioprio_set":
+                    call["post"] = "ioprio"
+                if f == "setpriority":
+                    call["post"] = "nice"
+                out.append(call)
+    return out
